@@ -55,6 +55,14 @@ PROPS = {
         rule="methods GET/POST/PUT/DELETE/OPTIONS x bodies (empty, 1 byte, text, all 256 byte values, 100 KiB) x header multisets drawn from a pool with repeated names, mixed case, every hop-by-hop name, Authorization, conditional and Range headers x rule flavours (copy target, retry_rule that matches or not, four hostheader modes, request_headers set/delete/add) x fault scripts (k connection failures then success with k up to the retry budget + 1, 4xx then fallback, copy failures); non-trivial = at least one delivery; distinct = distinct case encodings",
         classify=kind_of,
     ),
+    "C05": dict(
+        family="cache", xcheck=40,
+        proof_files=["Proofs/C05Proofs.v"],
+        trusted_base=TB_COMMON + ["caching/verif_export.go hooks (VerifWaitIdle, VerifSetCreated)", "HTTP framing on the wire (Content-Length enforcement, chunking, HEAD/204/304 bodies) is Go's net/http server, modelled by wire_body and exercised on every run", "a request parked by the harness after 300 origin deliveries stands for a request that never completes"],
+        assumptions=ASSUME_COMMON + ["Range and conditional requests are judged by C15 and C09, not here", "Content-Type sniffing by Go's server when the origin sends none is not rrrouter's doing"],
+        rule="origin statuses drawn from 31 representative codes 200-599 (uniformly from 200..599 in half of the thorough cases) x header sets (repeated Set-Cookie / X-Custom, ETag, Location, Cache-Control incl. no-store/private/max-age=0) x bodies of 0, 1, 7, 1000, 32767, 32768, 32769, 70000 bytes with and without Content-Length (chunked) x GET/HEAD/POST x rule flavours (cache on/off, response_headers incl. an override of an origin header), each request also repeated warm; plus requests rrrouter must answer itself (malformed Host values, no route, wrong secret, id without secret, unreachable origin); non-trivial = the request reached the handler; distinct = distinct case encodings",
+        classify=lambda row: "history",
+    ),
     "C08": dict(
         family="cache", xcheck=30,
         proof_files=["Proofs/C08Proofs.v"],
